@@ -329,7 +329,15 @@ def main(tier, seed):
                 rep = ("raised %s: %s" % (type(val).__name__, val)) if kind == "exc" else (val or None)
             if rep:
                 st.ob("refuted", key=okey)
-                st.violation("engine-answer:%s" % rep.split(":")[0].split(" q(")[0][:50], rep,
+                vkey = "engine-answer:%s" % rep.split(":")[0].split(" q(")[0][:50]
+                if h.meta["domain"] == 1 and rep.startswith("bindings"):
+                    # causal attribution: the same pair unified directly with =/2 (form 0) returns the right bindings, so the
+                    # loss happens where the bindings made by matching the clause head e(A,A) are returned to the caller
+                    h0 = xh.Harness("h_eng_probe", h.source.replace(h.name, "h_eng_probe").replace(", 1)\n", ", 0)\n"), {})
+                    k0, v0 = xh.call_harness(E_PREAMBLE, h0, call[1], call[2])
+                    if k0 != "exc" and v0 == "":
+                        vkey = "engine-answer:clause-head-aliasing:sharing-lost"
+                st.violation(vkey, rep,
                              {"kind": "xh-engine", "harness": h.source, "name": h.name, "args": list(call[1]), "kwargs": call[2]})
             else:
                 st.ob("inconclusive", key=okey, note="counterexample did not replay: %s" % detail[:120])
